@@ -143,11 +143,11 @@ CLAIMED["C20"] = dict(
     text="Theorems for data of ANY magnitude (arbitrary rationals): the frexp exponent e satisfies 2^(e-1) <= |x| < 2^e and "
          "depends only on the value; |x| 2^(1-e) in [1,2); Nominal: scaled non-zero values in [1,2); GradJac: scaled "
          "non-zero gradient components in [1,2) and the largest scaled entry of every non-zero Jacobian row in [1,2); "
-         "KKT: whenever the equilibration loop returns, every column of the matrix it holds has absolute sum in [1,4) "
-         "(or < 1e-10). Weights are integers by type. Model tied by exact correspondence on data spanning 2^-50..2^50. "
-         "Partial: that the matrix held at exit is the input scaled by the returned weights is tied by correspondence and "
-         "the search oracle, not proved; float sqrt rounding at exact powers of four is off the grid.",
-    note=BASE_NOTE, technique="Coq proof (Z.log2 bounds lifted to Q; nra) + vm_compute differential correspondence",
+         "KKT: whenever scale_symmetric returns exponents D', every column of diag(2^D') |K| diag(2^D') has absolute sum in "
+         "[1,4) (or < 1e-10), by the loop invariant that the matrix held is the input scaled by the accumulated exponents. "
+         "Weights are integers by type. Model tied by exact correspondence on data spanning 2^-50..2^50. "
+         "Partial: float sqrt rounding at exact powers of four is off the grid.",
+    note=BASE_NOTE, technique="Coq proof (Z.log2 bounds lifted to Q; nra; loop invariant by induction on fuel) + vm_compute differential correspondence",
     ref="4/C20")
 
 FACT_NOTE = (BASE_NOTE + "The per-run structural obligations are proofs relative to the fact extractor (harness/facts.py: a syntactic, "
